@@ -1,30 +1,12 @@
-import sys, time
+import sys, os, time
 sys.path.insert(0, '/verif')
-from vlib import term as T, mirsmt as M
-from vlib.term import C
-mir = M.Mir('/verif/.work/mir/whirlpool.mir')
-print('fns', len(mir.fns), 'consts', len(mir.consts), mir.const('FEE_RATE_MUL_VALUE'))
-MINP, MAXP = 4295048016, 79226673515401279992447579055
-e = M.Engine(mir)
-p0 = T.var('p0', MINP, MAXP); p1 = T.var('p1', MINP, MAXP); L = T.var('L', 0, 2**128-1)
-W64 = C(2**64)
-for up in (True, False):
-    t0 = time.time(); obls = []
-    lo = T.ite(T.cmp('<=', p0, p1), p0, p1); hi = T.ite(T.cmp('<=', p0, p1), p1, p0)
-    N = T.mul(T.mul(L, T.sub(hi, lo)), W64); D = T.mul(hi, lo)
-    for path, r in e.run('token_math::try_get_amount_delta_a', [M.I(p0,'u128'), M.I(p1,'u128'), M.I(L,'u128'), M.B(T.TRUE if up else T.FALSE)], M.Path()):
-        if isinstance(r, M.Panic): goal = T.FALSE; kind = 'panic'
-        elif r.var == 'Err':
-            goal = T.cmp('>=', T.mul(L, T.sub(hi, lo)), C(2**192)); kind='Err'
-        else:
-            inner = r.fields[0]; kind = inner.var
-            if inner.var == 'Valid':
-                v = inner.fields[0].t
-                if up: exact = T.and_(T.cmp('>=', T.mul(v, D), N), T.or_(T.cmp('=', v, C(0)), T.cmp('<', T.mul(T.sub(v, C(1)), D), N)))
-                else: exact = T.and_(T.cmp('<=', T.mul(v, D), N), T.cmp('>', T.mul(T.add(v, C(1)), D), N))
-                goal = T.and_(T.cmp('<', v, W64), exact)
-            else:
-                goal = T.cmp('>', N, T.mul(D, T.sub(W64, C(1)))) if up else T.cmp('>=', N, T.mul(D, W64))
-        obls.append(M.Obligation(f'delta_a_up{up}_{kind}_{len(obls)}', path.pc, goal))
-    M.discharge(obls, 60, 16, '/verif/.work/smt_dev')
-    print('round_up', up, [(o.key, o.verdict, round(o.time,2)) for o in obls], round(time.time()-t0,1), e.stats)
+from vlib import evidence as EV, mirsmt as M
+from props import c02
+class Ctx(EV.Ctx):
+    def mir(self, tag='whirlpool', **kw):
+        if not hasattr(self, '_m'): self._m = M.Mir(os.environ.get('DEV_MIR','/verif/.work/dev.mir'))
+        return self._m
+ctx = Ctx('C02', 'quick', 0, 8, None)
+for n, t in c02.leaf_tasks():
+    if sys.argv[1] in n: t(ctx)
+for o in ctx.obligations: print(o['verdict'], o['key'], o['time_s'], o['detail'][:150])
